@@ -30,6 +30,8 @@ def main():
             d = os.path.join(mdir, mid)
             if not re.match(r"C\d\d-m\d$", mid) or not os.path.exists(os.path.join(d, "patch.diff")):
                 continue
+            if os.environ.get("SEED_ONLY") and mid not in os.environ["SEED_ONLY"].split(","):
+                continue
             conf = {}
             try:
                 m = re.search(r"suite_pass=(\d+) demo_with_patch_rc=(\d+) demo_without_rc=(\d+)", open(os.path.join(d, "confirm.txt")).read())
